@@ -8,7 +8,7 @@
    of batches -- no row beyond the position, no position without its rows. *)
 From Coq Require Import List NArith Bool.
 From Shovel Require Import Model.TaskTypes Model.TaskDb Model.Task Model.TaskNode Model.TaskSys
-  Model.TaskSpec Model.TaskWitness Proofs.TaskLegacyP Proofs.C02P.
+  Model.TaskSpec Model.TaskWitness Proofs.TaskLegacyP Proofs.C02P Proofs.TaskLiveP.
 Import ListNotations.
 Open Scope N_scope.
 
@@ -60,6 +60,23 @@ Theorem crash_is_rollback : forall u p s d cs,
 Proof. exact crash_rollback. Qed.
 Print Assumptions crash_is_rollback.
 
+(* retry_equiv (growth histories, integration without filter references): a
+   step that failed on a growing chain left the pair and the outside as they
+   were ([failed_step_state] / C01 [step_failed_unchanged]); from ANY such
+   state the fault-free retry produces the same pair and the same outside as
+   the fault-free step from the original state -- as if the fault had not
+   happened.  (Reorg histories: see design.d/C02.md, limits.) *)
+Theorem retry_equiv : forall c ch,
+  cfg_ok c -> wf_chain ch -> height ch < nmax -> t_deps c = [] ->
+  (forall b, In b ch -> NoDup (map fst (b_rows b))) ->
+  forall g d d' ln x,
+  pv c d = render c g -> wf_ghost c g -> Forall (on_chain (t_hashes c) ch) (concat g) ->
+  blk_at ch ln = Some x -> at_pos c g ln -> ln < clip c (height ch - 1) ->
+  pv c d' = pv c d -> outside c d' = outside c d ->
+  pv c (hstepf c ch d') = pv c (hstepf c ch d) /\ outside c (hstepf c ch d') = outside c (hstepf c ch d).
+Proof. exact retry_lemma. Qed.
+Print Assumptions retry_equiv.
+
 (* TaskInv implies the directly observable I1: no row beyond the newest cursor *)
 Theorem inv_no_row_beyond_position : forall c d, TaskInv c d -> i1b c d = true.
 Proof. exact TaskInv_i1b. Qed.
@@ -69,16 +86,12 @@ Print Assumptions inv_no_row_beyond_position.
    does NOT preserve TaskInv: batch 3, chain A indexed to block 6, reorg below
    block 4 -- the first transaction commits rows of blocks 4 and 5 beyond
    position 3.  This is the witness replayed on the unrepaired implementation. *)
-Definition legacy_preserves_inv_full : Prop :=
-  forall c ch d, cfg_ok c -> TaskInv c d -> TaskInv c (r_db (hstep legacy c ch d)).
 Theorem legacy_preserves_inv_refuted : ~ legacy_preserves_inv_full.
-Proof.
-  intros H. apply w2_legacy_breaks_inv. apply H; [apply w2_mid_inv|apply w2_mid_inv].
-Qed.
+Proof. exact legacy_preserves_inv_false. Qed.
 Print Assumptions legacy_preserves_inv_refuted.
 
 (* non-vacuity: the hypotheses are satisfiable, and the witness state is one *)
 Example inv_satisfiable : TaskInv w2_cfg w2_mid /\ cfg_ok w2_cfg.
 Proof. exact w2_mid_inv. Qed.
 Example empty_inv : TaskInv w2_cfg (Db [] []).
-Proof. apply (TaskInv_by_ghost _ _ []); reflexivity. Qed.
+Proof. exact empty_inv_example. Qed.
